@@ -248,6 +248,35 @@ fn op_format(case: &Value, fx: &cgt_money::FxCache) -> Value {
     }
 }
 
+/// The Schwab converter on an export (and optional awards file); the timestamp line is masked.
+fn op_schwab(case: &Value) -> Value {
+    use cgt_converter::BrokerConverter;
+    use cgt_converter::schwab::{SchwabConverter, SchwabInput};
+    let input = SchwabInput {
+        transactions_json: case["transactions_json"].as_str().unwrap_or("").to_string(),
+        awards_json: case.get("awards_json").and_then(|v| v.as_str()).map(|s| s.to_string()),
+    };
+    match SchwabConverter::new().convert(&input) {
+        Ok(out) => {
+            let content: Vec<&str> = out.cgt_content.split('\n').filter(|l| !l.starts_with("# Converted: ")).collect();
+            let parsed = parse_file(&out.cgt_content);
+            json!({"ok": true, "content": content.join("\n"), "warnings": out.warnings, "skipped": out.skipped_count,
+                   "parses": parsed.is_ok(), "parse_error": parsed.as_ref().err().map(|e| e.to_string()),
+                   "txns": parsed.map(|ts| ts.iter().map(show_txn).collect::<Vec<_>>()).unwrap_or_default()})
+        }
+        Err(e) => {
+            let kind = match &e {
+                cgt_converter::ConvertError::JsonError(_) => "Json",
+                cgt_converter::ConvertError::InvalidDate(_) => "InvalidDate",
+                cgt_converter::ConvertError::InvalidAmount(_) => "InvalidAmount",
+                cgt_converter::ConvertError::MissingFairMarketValue { .. } => "MissingFmv",
+                cgt_converter::ConvertError::InvalidTransaction(_) => "InvalidTransaction",
+            };
+            json!({"ok": false, "kind": kind, "error": e.to_string()})
+        }
+    }
+}
+
 /// The embedded exemption table, so that both sides are given the code's own data.
 fn op_config() -> Value {
     match Config::embedded() {
@@ -290,6 +319,7 @@ fn main() {
             "parse" => op_parse(&case),
             "roundtrip" => op_roundtrip(&case, &fx),
             "format" => op_format(&case, &fx),
+            "schwab" => op_schwab(&case),
             _ => json!({"ok": false, "stage": "harness", "error": format!("unknown op {op}")}),
         }));
         let mut v = match res {
